@@ -644,7 +644,10 @@ func (s *Session) libOwned() (owned []G, caller *G) {
 // "network" (blocked reading the connection), "holding" (blocked handing an
 // event over), "running", or "none".
 func (s *Session) ReaderState() string {
-	owned, _ := s.libOwned()
+	owned, caller := s.libOwned()
+	if caller != nil && caller.IOWait() {
+		return "network" // a library without a reader goroutine: Stream's caller reads itself
+	}
 	st := "none"
 	for _, g := range owned {
 		switch {
@@ -662,10 +665,10 @@ func (s *Session) ReaderState() string {
 }
 
 // CallerIdle reports whether the goroutine inside Stream is parked waiting for
-// another goroutine (nothing left for it to consume).
+// another goroutine or for the network (nothing left for it to consume).
 func (s *Session) CallerIdle() bool {
 	_, c := s.libOwned()
-	return c != nil && c.Parked()
+	return c != nil && (c.Parked() || c.IOWait())
 }
 
 // WaitBlocked waits until the scripted handler call blocks. It gives up when
